@@ -909,6 +909,10 @@ def check_from_string(ctx, rule: str) -> None:
         cases.append((f"{a} or {b} and {c}", OR(N(a), AND(N(b), N(c)))))
         cases.append((f"({a} & {b}) | {c}", OR(AND(N(a), N(b)), N(c))))
         cases.append((f"  ( {a} or {b} ) and {c} ", AND(OR(N(a), N(b)), N(c))))
+    # upper-case operator spellings are accepted (with a warning); identifiers that contain their letters stay intact
+    cases.append(("YOR374W AND RAND1", AND(N("YOR374W"), N("RAND1"))))
+    cases.append(("ORF19 OR (b1 AND ANDY)", OR(N("ORF19"), AND(N("b1"), N("ANDY")))))
+    cases.append(("ORF19 or RAND1 and YOR374W", OR(N("ORF19"), AND(N("RAND1"), N("YOR374W")))))
     problems: List[str] = []
     n = 0
     for text, want in cases:
